@@ -407,6 +407,9 @@ def inline_private_helpers(f: "FuncInfo", depth: int = 3, methods: bool = False,
                 return False
             if only is not None and g.name not in only:
                 return False
+        # a decorated helper is not its body (memoisation, wrapping): it stays a call
+        if any(norm(d) not in ("staticmethod",) for d in g.node.decorator_list):
+            return False
         body = g.body_without_docstring()
         if not body:
             return False
